@@ -9,7 +9,7 @@ use encoding_rs::Encoding;
 use serde_json::{json, Value};
 use std::collections::BTreeSet;
 
-const POOL: &[&str] = &["é", "ß", "Я", "ж", "日本", "語", "한", "ก", "א", "ع", "α", "ő", "ş", "€", "ñ", "ç", "ü", "Ω", "«", "ї"];
+const POOL: &[&str] = &["é", "ß", "Я", "ж", "日本", "語", "한", "ก", "א", "ع", "α", "ő", "ş", "€", "ñ", "ç", "ü", "Ω", "«", "ї", "😀", "ሴ"];
 
 fn enc_of(label: &str) -> &'static Encoding { Encoding::for_label_no_replacement(label.as_bytes()).unwrap() }
 
@@ -68,7 +68,14 @@ fn build_doc(rng: &mut Rng, sm: &[Vec<u8>], malformed: bool) -> Vec<u8> {
     let pick = |rng: &mut Rng| -> Vec<u8> {
         let mut v = Vec::new();
         for _ in 0..(1 + rng.below(3)) {
-            if malformed && rng.chance(1, 3) { v.push(0x80 + rng.below(0x80) as u8); } else { v.extend_from_slice(&rng.pick(sm)[..]); }
+            if malformed && rng.chance(1, 3) {
+                v.push(0x80 + rng.below(0x80) as u8);
+            } else if malformed && rng.chance(1, 2) {
+                // a truncated multi-byte sequence (every proper prefix of a valid character), followed by ASCII
+                let smp = rng.pick(sm);
+                if smp.len() > 1 { let k = 1 + rng.below(smp.len() - 1); v.extend_from_slice(&smp[..k]); v.push(b'a' + rng.below(26) as u8); v.push(b'0' + rng.below(10) as u8); }
+                else { v.extend_from_slice(&smp[..]); }
+            } else { v.extend_from_slice(&rng.pick(sm)[..]); }
             if rng.chance(1, 3) { v.push(b'a' + rng.below(26) as u8); }
         }
         v
@@ -102,7 +109,7 @@ pub fn job_c13(out_dir: &str, tier: &str, seed: u64) {
             let doc = build_doc(&mut rng, &sm, di % 3 == 2);
             let cfg = gen::merge(&all, &json!({"strict": false, "enc": label}));
             let mut cutsets: Vec<Vec<usize>> = vec![vec![], (1..doc.len()).collect()];
-            for c in 1..doc.len() { if doc[c] >= 0x80 || doc[c - 1] >= 0x80 { cutsets.push(vec![c]); } }
+            for c in 1..doc.len() { if (c.saturating_sub(3)..=(c + 1).min(doc.len() - 1)).any(|j| doc[j] >= 0x80) { cutsets.push(vec![c]); } }
             for _ in 0..3 { let mut c: Vec<usize> = (0..3).map(|_| rng.below(doc.len() + 1)).collect(); c.sort_unstable(); cutsets.push(c); }
             let mut seen = std::collections::HashSet::new();
             for cuts in &cutsets {
